@@ -1,7 +1,7 @@
 (* C18 - the to_vec future resolves once with everything the source emitted.
    Statements only; proofs in Proofs/ToVecInv.v.  Model/ConcToVec.v is operators/to_vec.rs as a
    poller / source transition system at lock granularity with a minimal parking executor; `trun acts`
-   is an arbitrary interleaving (any number of spurious re-polls included). *)
+   is an arbitrary interleaving (any number of spurious re-polls included, each with a fresh waker). *)
 From Coq Require Import List Bool Arith.
 From RX Require Import ConcToVec.
 From RXP Require Import ToVecInv.
@@ -20,14 +20,16 @@ Check C18_result :
     t_done (trun acts (tv0 items en)) = true /\ expected_result items en = Some (e, l).
 Print Assumptions C18_result.
 
-(* No lost wake-up: whenever the source has finished, a parked poller has a wake-up token pending. *)
+(* No lost wake-up: whenever the source has finished, a parked poller has the token of its LATEST waker pending
+   (every poll hands in a new waker, identified by the poll's number t_cur; a to_vec that kept only the first waker,
+   or woke a stale one, would fail this). *)
 Theorem C18_no_lost_wakeup :
   forall items en acts, let s := trun acts (tv0 items en) in
-  t_sp s = SFin -> t_pp s = PPParked -> t_token s = true.
+  t_sp s = SFin -> t_pp s = PPParked -> t_token s = Some (t_cur s).
 Proof. exact tovec_no_lost_wakeup. Qed.
 Check C18_no_lost_wakeup :
   forall items en acts, let s := trun acts (tv0 items en) in
-  t_sp s = SFin -> t_pp s = PPParked -> t_token s = true.
+  t_sp s = SFin -> t_pp s = PPParked -> t_token s = Some (t_cur s).
 Print Assumptions C18_no_lost_wakeup.
 
 (* Always eventually: once the source has finished, three steps of the poller's own end in Ready - it is
